@@ -185,7 +185,9 @@ func checkC10(ci any, info *CaseInfo) string {
 			if err != nil {
 				return nil, Outcome{Err: err}, ""
 			}
-			o := guard(func() error { _, err := model.Apply(evs, u); return err })
+			// by-reference payloads live in a scratch buffer that is overwritten
+			// right after the callback, as the StringRefVisitor contract allows
+			o := guard(func() error { return scribbleApply(evs, ensureExt(u)) })
 			idle := ""
 			if !o.Panicked() && o.Err == nil {
 				if d := u.VerifDepths(); d != [7]int{} {
@@ -219,7 +221,7 @@ func checkC10(ci any, info *CaseInfo) string {
 	case "wrapped":
 		run := func(evs []model.Ev) ([]model.Ev, Outcome) {
 			rec := &model.Recorder{}
-			o := guard(func() error { _, err := model.Apply(evs, plainVisitor{rec}); return err })
+			o := guard(func() error { return scribbleApply(evs, ensureExt(plainVisitor{rec})) })
 			return rec.Evs, o
 		}
 		ea, oa := run(sa)
